@@ -1595,6 +1595,15 @@ func (ex *Exec) invoke(recv Value, m *types.Func, args []Value) Value {
 		}
 		panic(engineErr("unsupported method %s on opaque %s [%s]", m.Name(), op.Kind, ex.where()))
 	}
+	if pp, ok := iv.V.(Ptr); ok && pp.Obj != nil {
+		// a pointer to an abstract library object (e.g. *chi.Mux behind chi.Router)
+		if op, ok := (*pp.slot()).(*Opaque); ok {
+			if h, ok := opaqueMethods[op.Kind+"."+m.Name()]; ok {
+				ex.intrUsed["("+op.Kind+")."+m.Name()] = true
+				return h(ex, op, args)
+			}
+		}
+	}
 	sel := ex.eng.prog.MethodSets.MethodSet(iv.T).Lookup(m.Pkg(), m.Name())
 	if sel == nil {
 		panic(engineErr("method %s not found on %s", m.Name(), iv.T))
